@@ -22,6 +22,7 @@ type c02Stats struct {
 	exhausted   bool
 	skipped     int
 	handover    bool
+	mapFailed   bool
 }
 
 func c02Run(c pmCase) (*vlib.Failure, c02Stats) {
@@ -123,6 +124,45 @@ func c02Run(c pmCase) (*vlib.Failure, c02Stats) {
 	// real hand-over: the main allocator initialises on top of the n early
 	// allocations (making a few more of its own) and must end up with exactly
 	// kernel + early frames reserved.
+	if !oom && c.MapFail != 0 {
+		// the hand-over fails half-way (the map seam reports an error); boot goes on
+		mm.SetFrameAllocator(earlyAllocFrame)
+		var initErr *kernel.Error
+		pc := vlib.CatchFault(func() { initErr = bitmapAllocator.init() })
+		if pc.Panicked {
+			return nil, rs // decided by C03
+		}
+		if initErr != pmErrMapFail {
+			return nil, rs // the failure did not fire (fewer map calls), or another error came first
+		}
+		rs.mapFailed = true
+		seq := append(append([]uint64(nil), got...), env.early...)
+		for i := 0; i < 3; i++ {
+			var f mm.Frame
+			var err *kernel.Error
+			if pc := vlib.CatchFault(func() { f, err = earlyAllocFrame() }); pc.Panicked {
+				return vlib.Failf("early allocation after the failed hand-over crashed: %v", pc), rs
+			}
+			if err != nil {
+				break
+			}
+			seq = append(seq, uint64(f))
+		}
+		for i := 1; i < len(seq); i++ {
+			if seq[i] <= seq[i-1] {
+				return vlib.Failf("after a hand-over that failed (map seam call %d of the hand-over reported an error) the early allocator returned frame %#x as allocation #%d, not above frame %#x returned before (all frames so far: %s)", c.MapFail, seq[i], i, seq[i-1], clipFrames(seq)), rs
+			}
+		}
+		for i, fn := range seq {
+			if !availSet[fn] || (fn >= kf0 && fn <= kf1) {
+				return vlib.Failf("early allocation #%d (around a failed hand-over) returned frame %#x, which is not usable RAM outside the kernel image", i, fn), rs
+			}
+		}
+		if count := bootMemAllocator.allocCount; count != uint64(len(seq)) {
+			return vlib.Failf("after a failed hand-over the early allocator counts %d allocations, %d frames were returned (%s): the frames consumed during boot cannot be recovered", count, len(seq), clipFrames(seq)), rs
+		}
+		return nil, rs
+	}
 	if !oom {
 		var initErr *kernel.Error
 		pc := vlib.CatchFault(func() { initErr = bitmapAllocator.init() })
@@ -172,6 +212,10 @@ func TestVerifC02(t *testing.T) {
 		var c pmCase
 		c.Regions = pmGenRegions(t, 8, false)
 		c.EntrySize = pmGenEntrySize(t)
+		if rapid.IntRange(0, 5).Draw(t, "mapfail") == 0 {
+			c.MapFail = rapid.IntRange(1, 3).Draw(t, "mapfailat")
+			c.Tables = rapid.IntRange(0, 3).Draw(t, "mapfailtables")
+		}
 		ks, ke, where, ok := pmGenKernel(t, c.Regions)
 		if !ok {
 			st.Case(c, false, "no-available-region-with-a-whole-frame")
@@ -197,6 +241,9 @@ func TestVerifC02(t *testing.T) {
 		}
 		if rs.exhausted {
 			labels = append(labels, "exhausted")
+		}
+		if rs.mapFailed {
+			labels = append(labels, "hand-over-failed-half-way,-boot-went-on")
 		}
 		if rs.handover {
 			labels = append(labels, "hand-over-checked")
